@@ -305,6 +305,14 @@ func (w *vWorld) cred(kind, subject string) vc.VerifiableCredential {
 		c = mk("did:example:authority", 86400)
 	case "foreign":
 		c = mk("did:example:nobody", 86400)
+	case "orgBoth":
+		// ONE credential that fulfils BOTH input descriptors (issued by the authority and carrying authServerURL)
+		doc := `{"@context":["https://www.w3.org/2018/credentials/v1"],"id":"did:example:authority#both-` + strings.ReplaceAll(subject, ":", "_") +
+			`","type":["VerifiableCredential","TestCredential"],"issuer":"did:example:authority","issuanceDate":"2024-01-01T00:00:00Z",` +
+			`"credentialSubject":{"id":"` + subject + `","authServerURL":"https://verif.example/oauth2/x"}}`
+		if err := json.Unmarshal([]byte(doc), &c); err != nil {
+			panic(err)
+		}
 	case "holder":
 		c = createHolderCredential(sd, map[string]interface{}{"authServerURL": "https://verif.example/oauth2/" + sd.ID})
 	default:
@@ -413,11 +421,23 @@ func (w *vWorld) build(rec vRecipe) *vBuilt {
 	}
 	m["creds"] = credExps
 	m["credIds"] = credIds
+	// the PEX verdict told to the model: Match failed (-1), or how many of the PRESENTED credentials Match used to fulfil
+	// the definition (one credential may fulfil several input descriptors, Match then returns it several times)
 	matched, _, err := w.def.PresentationDefinition.Match(b.vp.VerifiableCredential)
 	if err != nil {
 		m["pex"] = -1
 	} else {
-		m["pex"] = len(matched)
+		used := 0
+		for _, pc := range b.vp.VerifiableCredential {
+			for _, mc := range matched {
+				if pc.ID != nil && mc.ID != nil && pc.ID.String() == mc.ID.String() && pc.Raw() == mc.Raw() {
+					used++
+					break
+				}
+			}
+		}
+		m["pex"] = used
+		m["pexReturned"] = len(matched)
 	}
 	b.model = m
 	if b.vp.Raw() != "" {
@@ -971,6 +991,17 @@ func (r *vRunner) genServerOp(lastExp map[string]int64) vOp {
 	case pick < 60:
 		class = "defect:pex-nomatch"
 		rec.Creds = [][]string{{}, {"foreign"}, {"holder"}, {"org"}}[rng.Intn(4)]
+	case pick < 61:
+		// one credential fulfils both input descriptors: alone it is a conforming presentation, with an arbitrary extra
+		// credential next to it the extra one fulfils nothing ("all and only")
+		switch rng.Intn(3) {
+		case 0:
+			class, rec.Creds = "valid-one-credential-for-both-descriptors", []string{"orgBoth"}
+		case 1:
+			class, rec.Creds = "defect:pex-extra-next-to-double-match", []string{"orgBoth", "foreign"}
+		default:
+			class, rec.Creds = "defect:pex-extra-next-to-double-match", []string{"foreign", "orgBoth"}
+		}
 	case pick < 63:
 		class = "defect:pex-partial"
 		rec.Creds = [][]string{{"org", "holder", "foreign"}, {"org", "holder", "orgShort"}}[rng.Intn(2)]
